@@ -630,7 +630,7 @@ def drv_sequences(ctx, k, rng):
         for f_ in hedger.inputs.features:
             if isinstance(f_, torch.nn.Module):
                 f_.to(dt_)  # FeatureList is not a Module: Hedger.to() does not reach the parameters of module-output features
-        if not hasattr(d.ul(), "_buffers") or "spot" not in d.ul()._buffers:
+        if "spot" not in dict(d.ul().named_buffers()):
             d.simulate(n_paths=d._n)
 
     L = int(rng.integers(3, 13))
@@ -652,7 +652,7 @@ def drv_sequences(ctx, k, rng):
         elif op == "register_data":
             # the caller's own series handed to the instrument as market data (the instrument keeps the tensor): a later simulation replaces the
             # instrument's series, it never writes into the caller's tensor
-            if list(d.ul()._buffers) == ["spot"]:
+            if [n_ for n_, _ in d.ul().named_buffers()] == ["spot"]:
                 # (two more paths than before, so that the instrument takes the tensor itself; later simulations use this path count)
                 old = d.ul().spot.detach()
                 mine = torch.cat([old, old[:2] * 1.01]).clone()
@@ -725,7 +725,7 @@ def drv_sequences(ctx, k, rng):
     mon = "binding.stays_bound"
     for i, bound in kept:
         d = ders[i]
-        if "spot" not in d.ul()._buffers:
+        if "spot" not in dict(d.ul().named_buffers()):
             continue
         ctx.seen(mon)
         bad = {}
